@@ -35,7 +35,14 @@ ASSUMPTIONS = ["signals and kernels of the exact part are integer valued and sma
                "(the same one in the whole call); the model and the code cut (k-1)//2 on the left, which the model comparison pins",
                "convolve(k, ep=ep) is read as restrict(ep) followed by convolve: the 'input' whose timestamps and support are kept is the series restricted to ep",
                "a series (or a series restricted to ep) holding no sample at all has, in pynapple, an EMPTY time support (base-class invariant: zero epochs, strictly outside "
-               "'one or many epochs'); convolve must still not raise on it: expected result = no timestamp, empty support; key no_sample=True"]
+               "'one or many epochs'); convolve must still not raise on it: expected result = no timestamp, empty support; key no_sample=True",
+               "widened forms (parts 6-8): 'the signal' of the statement is the sequence of VALUES, whatever dtype stores it: a float32 / integer / unsigned / bool signal must give the output of the same values "
+               "in float64 (an instance of linearity with the combination stored in float64); narrow kernel x narrow signal pairs whose NumPy result type would wrap are not generated",
+               "widened forms: signals holding NaN / +-inf: 'equals NumPy's full convolution' fixes every output entry (NaN where a NaN or inf*0 or inf-inf enters the sum); smooth must not raise on them; the "
+               "filters document a ValueError for NaN input, which is accepted (and nothing else)",
+               "widened forms: an argument form the documented signature does not accept (list / tuple kernel, np.float32 / np.int64 / 0-d std, np.int64 or float order, np.float32 transition_bandwidth, "
+               "trim / mode in another letter case, any operation on an EMPTY series) must either raise a Python exception or behave as the statement says; whether it raises is counted, not judged",
+               "widened forms: smooth's std is kept 1e-3 away from the values where int(rate*std) jumps; time arguments that round to the same nanosecond are the same instants"]
 
 U = 1953125  # 2^-9 s in ticks
 TRIMS = ("left", "right", "both")
@@ -796,6 +803,1103 @@ def part_butter(res, nap, tier, rng):
         F.sosfiltfilt = orig
 
 
+# (widened argument forms follow; see res.rule, parts 6-8)
+# ------------------------------------------------------------------------------------------------
+# WIDENED ARGUMENT FORMS (parts 6 and 7): the same statement oracles, the inputs given in every admissible form
+SEC = 10 ** 9
+DT_ALL = ("float64", "float32", "int64", "int32", "int16", "int8", "uint8", "uint16", "uint32", "uint64", "bool")
+DT_WEIGHTS = (5, 3, 3, 1, 2, 2, 3, 1, 1, 2, 2)
+TFORMS = ("list", "tuple", "pandas", "pd_index", "tsindex", "other_t", "ms", "us", "f32")
+TFORMS_INT = ("int64_s", "int32_s", "uint64_s", "uint32_s")
+EFORMS = ("lists", "tuples", "ms", "us", "2d", "df")
+EFORMS_INT = ("int64_s", "int32_s", "uint64_s", "uint32_s")
+HISTS = ("restrict", "getitem", "arith", "npfunc", "saveload", "colpick")
+LABELS = ("strings", "ints_unsorted", "digit_strings", "floats")
+KFORMS = ("i64", "f32", "i8", "i16", "u8", "bool", "halves", "list", "tuple", "noncontig", "negstride", "fortran", "view_of_data")
+KDTYPE = {"f64": "float64", "i64": "int64", "f32": "float32", "i8": "int8", "i16": "int16", "u8": "uint8", "bool": "bool"}
+OPTIONAL_KFORMS = ("list", "tuple")       # not "a numpy array": the call may refuse them (cleanly) or must satisfy the statement
+
+
+def dt_class(dt):
+    return "bool" if dt == "bool" else "uint" if dt.startswith("uint") else "int" if dt.startswith("int") else dt
+
+
+def val_range(dt, big=False):
+    c = dt_class(dt)
+    return (0, 1) if c == "bool" else (0, 50 if big else 9) if c == "uint" else (-50, 50) if big else (-9, 9)
+
+
+def fits(cols, dt):
+    c = dt_class(dt)
+    if c.startswith("float"):
+        return True
+    flat = [v for col in cols for v in col]
+    if c == "bool":
+        return all(v in (0, 1) for v in flat)
+    info = np.iinfo(dt)
+    return all(info.min <= v <= info.max for v in flat)
+
+
+def safe_pair(sdt, kdt, bound):
+    """NumPy convolves in result_type(signal, kernel): only pairs whose result type holds every partial sum exactly are generated"""
+    rt = np.result_type(np.dtype(sdt), np.dtype(kdt))
+    if rt == np.bool_:
+        return False
+    if rt.kind in "iu":
+        return np.iinfo(rt).max >= bound
+    return True
+
+
+def pick(rng, default, others, p=0.4):
+    return rng.choice(others) if rng.random() < p else default
+
+
+def label_list(form, n):
+    if form == "default":
+        return None
+    return {"strings": ["c%d" % (3 * i + 1) for i in range(7)], "ints_unsorted": [7, 2, 5, 11, 3, 0, 9],
+            "digit_strings": ["10", "9", "100", "1", "55", "07", "2"], "floats": [1.5, 0.5, 2.5, -1.0, 4.25, 3.0, 0.25]}[form][:n]
+
+
+def make_t(nap, ts, tform):
+    """the timestamps `ts` (ticks) in the requested argument form -> (t, constructor keywords)"""
+    import pandas as pd
+    a = G.arr(ts)
+    if tform == "list":
+        return a.tolist(), {}
+    if tform == "tuple":
+        return tuple(a.tolist()), {}
+    if tform == "pandas":          # Tsd / TsdFrame: the whole object comes as a pandas Series / DataFrame (see realise); TsdTensor: t is a Series
+        return pd.Series(a), {}
+    if tform == "pd_index":
+        return pd.Index(a), {}
+    if tform in ("tsindex", "other_t"):
+        o = nap.Ts(a, time_support=nap.IntervalSet(a[0] - 1.0, a[-1] + 1.0))
+        return (o.index if tform == "tsindex" else o.t), {}
+    if tform == "ms":
+        return np.asarray(ts, dtype=float) / 1e6, {"time_units": "ms"}
+    if tform == "us":
+        return np.asarray(ts, dtype=float) / 1e3, {"time_units": "us"}
+    if tform == "f32" and np.array_equal(a.astype(np.float32).astype(float), a):
+        return a.astype(np.float32), {}
+    if tform.endswith("_s") and all(t % SEC == 0 for t in ts):
+        return np.array([t // SEC for t in ts], dtype=tform[:-2]), {}
+    return a, {}
+
+
+def make_ep(nap, ep, eform, meta=False):
+    """the interval set `ep` (ticks) built from the requested argument form, with or without metadata"""
+    import pandas as pd
+    s, e = [a for a, _ in ep], [b for _, b in ep]
+    kw = {"metadata": {"lab": ["e%d" % i for i in range(len(ep))]}} if (meta and ep) else {}
+    fs_, fe_ = G.arr(s), G.arr(e)
+    if not ep:
+        return nap.IntervalSet([], []) if eform == "lists" else nap.IntervalSet(fs_, fe_)
+    if eform == "lists":
+        return nap.IntervalSet(fs_.tolist(), fe_.tolist(), **kw)
+    if eform == "tuples":
+        return nap.IntervalSet(tuple(fs_.tolist()), tuple(fe_.tolist()), **kw)
+    if eform in ("ms", "us"):
+        d = 1e6 if eform == "ms" else 1e3
+        return nap.IntervalSet(np.asarray(s, dtype=float) / d, np.asarray(e, dtype=float) / d, time_units=eform, **kw)
+    if eform == "2d":
+        return nap.IntervalSet(np.stack([fs_, fe_], axis=1), **kw)
+    if eform == "df":
+        return nap.IntervalSet(pd.DataFrame({"start": fs_, "end": fe_}), **kw)
+    if eform.endswith("_s") and all(v % SEC == 0 for v in s + e):
+        return nap.IntervalSet(np.array([v // SEC for v in s], dtype=eform[:-2]), np.array([v // SEC for v in e], dtype=eform[:-2]), **kw)
+    return nap.IntervalSet(fs_, fe_, **kw)
+
+
+def data_form(a, dform):
+    if dform == "list" and a.dtype.name in ("float64", "int64", "bool"):
+        return a.tolist()
+    if dform == "noncontig":
+        big = np.zeros((2 * a.shape[0],) + a.shape[1:], dtype=a.dtype)
+        big[::2] = a
+        return big[::2]
+    if dform == "fortran" and a.ndim >= 2:
+        return np.asfortranarray(a)
+    return a
+
+
+def pick_spec(rng, int_forms, unsigned, kinds=("Tsd", "TsdFrame", "TsdTensor"), frame_cols=(1, 2, 3)):
+    """one choice per argument-form axis; every axis leaves its most common value with probability ~0.4, independently (so the forms also occur COMBINED)"""
+    kind = rng.choice(kinds)
+    dshape = {"Tsd": (), "TsdFrame": (rng.choice(frame_cols),), "TsdTensor": (2, rng.randint(1, 2))}[kind]
+    nc = int(np.prod(dshape)) if dshape else 1
+    tints = [f for f in TFORMS_INT if unsigned or not f.startswith("u")]
+    eints = [f for f in EFORMS_INT if unsigned or not f.startswith("u")]
+    sp = {"kind": kind, "dshape": list(dshape),
+          "dtype": rng.choices(DT_ALL, DT_WEIGHTS)[0],
+          "dform": pick(rng, "ndarray", ("list", "noncontig", "fortran"), 0.3),
+          "labels": pick(rng, "default", LABELS, 0.6), "fmeta": rng.random() < 0.3,
+          "tform": rng.choice(tints) if (int_forms and rng.random() < 0.7) else pick(rng, "ndarray", TFORMS),
+          "eform": rng.choice(eints) if (int_forms and rng.random() < 0.7) else pick(rng, "arrays", EFORMS),
+          "emeta": rng.random() < 0.3, "ctor_kw": rng.random() < 0.5,
+          "hist": pick(rng, "direct", HISTS), "restrict_default": rng.random() < 0.5,
+          "getitem": rng.choice(["full_slice", "range_slice", "arange", "mask"]), "arith": rng.choice(["mul1", "add0"]),
+          "pick_style": rng.choice(["pos", "loc"])}
+    # colpick: the real columns sit at distinct, NON-MONOTONE positions of a wider frame
+    sp["pick"] = rng.sample(range(nc + 2), nc) if kind != "TsdTensor" else []
+    return sp
+
+
+def realise(nap, sp, ts, cols, ep, extras=(), wide=False):
+    """The signal holding `cols` (one list per flattened column) at the ticks `ts`, built the way `sp` says.
+    wide=False: its time support is `ep`; the samples `extras` (ticks outside ep) only exist before a restrict.
+    wide=True: one interval around everything and the extras stay (the input of convolve's ep= route).
+    Returns (object, expected column labels or None, timestamps held, columns held)"""
+    kind, dshape, dt, hist = sp["kind"], tuple(sp["dshape"]), sp["dtype"], sp["hist"]
+    junk = 1 if dt == "bool" else 7
+    if (wide or hist == "restrict") and extras:
+        allp = sorted([(t, 0, i) for i, t in enumerate(ts)] + [(t, 1, i) for i, t in enumerate(extras)])
+        uts = [p[0] for p in allp]
+        ucols = [[(col[p[2]] if p[1] == 0 else junk) for p in allp] for col in cols]
+    else:
+        uts, ucols = list(ts), cols
+    T = len(uts)
+    lo = min(uts + [s for s, _ in ep]) - 2 * SEC
+    hi = max(uts + [e for _, e in ep]) + 2 * SEC
+    target = [(lo, hi)] if wide else ep
+    if hist == "restrict":
+        sup = None if sp["restrict_default"] else make_ep(nap, [(lo, hi)], sp["eform"], sp["emeta"])
+    else:
+        sup = make_ep(nap, target, sp["eform"], sp["emeta"])
+    a = np.array(ucols, dtype=float).T.reshape((T,) + dshape) if dshape else np.array(ucols[0], dtype=float)
+    a = a.astype(dt)
+    nc = len(cols)
+    labels = label_list(sp["labels"], nc)
+    big_labels = None
+    if hist == "colpick":
+        if kind == "TsdTensor":
+            a = np.ascontiguousarray(a[:, ::-1])
+        else:
+            big = np.full((T, nc + 2), junk, dtype=a.dtype)
+            big[:, sp["pick"]] = a.reshape(T, nc)
+            a = big
+            big_labels = label_list(sp["labels"], nc + 2) or list(range(nc + 2))
+            labels = [big_labels[p] for p in sp["pick"]]
+    a = data_form(a, sp["dform"])
+    t_arg, kw = make_t(nap, uts, sp["tform"])
+    kw = dict(kw)
+    if sup is not None:
+        kw["time_support"] = sup
+    frame = kind == "TsdFrame" or (hist == "colpick" and kind == "Tsd")
+    if frame:
+        ncol = (nc + 2) if hist == "colpick" else nc
+        cl = big_labels if hist == "colpick" else labels
+        if cl is not None and sp["labels"] != "default":
+            kw["columns"] = cl
+        if sp["fmeta"]:
+            kw["metadata"] = {"m": list(range(ncol))}
+    cls = nap.TsdFrame if frame else {"Tsd": nap.Tsd, "TsdTensor": nap.TsdTensor}[kind]
+    if sp["tform"] == "pandas" and cls is not nap.TsdTensor:
+        import pandas as pd
+        cols_kw = kw.pop("columns", None)
+        pobj = pd.DataFrame(np.asarray(a), index=G.arr(uts), columns=cols_kw) if frame else pd.Series(np.asarray(a), index=G.arr(uts))
+        x = cls(t=pobj, **kw) if sp["ctor_kw"] else cls(pobj, **kw)
+    else:
+        x = cls(t=t_arg, d=a, **kw) if sp["ctor_kw"] else cls(t_arg, a, **kw)
+    if hist == "restrict":
+        x = x.restrict(make_ep(nap, target, sp["eform"], sp["emeta"]))
+        if not wide:
+            uts, ucols = list(ts), cols
+            T = len(uts)
+    elif hist == "getitem":
+        g = sp["getitem"]
+        x = x[:] if g == "full_slice" else x[0:T] if g == "range_slice" else x[np.arange(T)] if g == "arange" else x[np.ones(T, dtype=bool)]
+    elif hist == "arith":
+        x = (x * 1) if sp["arith"] == "mul1" else (x + 0)
+    elif hist == "npfunc":
+        x = np.logical_not(np.logical_not(x)) if x.dtype == np.bool_ else np.negative(np.negative(x))
+    elif hist == "saveload":
+        import os
+        import tempfile
+        d_ = tempfile.mkdtemp(prefix="c18_", dir=os.path.join(C.CACHE))
+        f_ = os.path.join(d_, "x.npz")
+        try:
+            x.save(f_)
+            x = nap.load_file(f_)
+        finally:
+            if os.path.exists(f_):
+                os.remove(f_)
+            os.rmdir(d_)
+    elif hist == "colpick":
+        if kind == "Tsd":
+            x = x[:, sp["pick"][0]] if sp["pick_style"] == "pos" else x.loc[big_labels[sp["pick"][0]]]
+            labels = None
+        elif kind == "TsdFrame":
+            x = x[:, list(sp["pick"])] if sp["pick_style"] == "pos" else x.loc[[big_labels[p] for p in sp["pick"]]]
+        else:
+            x = x[:, ::-1]
+    if kind == "TsdFrame" and labels is None:
+        labels = list(range(nc))
+    return x, (labels if kind == "TsdFrame" else None), uts, ucols
+
+
+def same(a, b):
+    """exact equality of two real arrays, NaN matching NaN (infinities by sign)"""
+    a, b = np.asarray(a, dtype=float), np.asarray(b, dtype=float)
+    return a.shape == b.shape and bool(np.array_equal(a, b, equal_nan=True))
+
+
+def holds(x, kind, uts, ucols, sup, labels, dshape):
+    """harness precondition: the object handed to the operation is the intended input"""
+    T = len(uts)
+    try:
+        return (type(x).__name__ == kind and [C.to_ns(t) for t in x.t] == list(uts) and support_of(x) == list(sup)
+                and tuple(x.shape) == (T,) + tuple(dshape)
+                and same(np.asarray(x.values, dtype=float).reshape(T, len(ucols)), np.array(ucols, dtype=float).T.reshape(T, len(ucols)))
+                and (labels is None or list(x.columns) == list(labels)))
+    except Exception:
+        return False
+
+
+def rand_case_w(rng, unit, off, emax=5):
+    """rand_case on the lattice `unit`; interval ends lie `off` ticks off a sample (off=0: samples exactly on the interval ends)"""
+    m = rng.randint(1, emax)
+    ts, ep, t = [], [], rng.randrange(0, 50) * unit
+    for _ in range(m):
+        ln = rng.choice([1, 1, 2, 3, 4, 6, 9, 14])
+        s = t
+        inside = []
+        for j in range(ln):
+            inside.append(t)
+            if rng.random() >= 0.15 or j == ln - 1:
+                t += rng.choice([1, 1, 2, 3]) * unit
+        e = inside[-1] + rng.choice([0, 0, off])
+        if e <= s:
+            e = s + (off or unit)
+        if rng.random() < 0.3:
+            s -= off
+        ts += inside
+        ep.append((s, e))
+        t = max(t, e) + rng.choice([unit, 2 * unit, 10 * unit])
+    return ts, ep
+
+
+def place(rng, ts, ep, unit, int_forms):
+    """time placement: at the origin, all negative, straddling 0 (one sample exactly at 0), or 1e5 s away"""
+    placement = rng.choice(["zero", "zero", "negative", "straddle", "large"])
+    unsigned = int_forms and placement in ("zero", "large") and rng.random() < 0.6
+    shift = {"zero": 0, "negative": -(ep[-1][1] // unit + 3) * unit, "straddle": -ts[len(ts) // 2], "large": 10 ** 14}[placement]
+    if unsigned:
+        shift += 4 * SEC
+    return placement, unsigned, [t + shift for t in ts], [(s + shift, e + shift) for s, e in ep]
+
+
+def outside(rng, ts, ep, unit):
+    """lattice ticks strictly outside every interval: one before, one after, some inside the gaps"""
+    ex = [min(ep[0][0], ts[0]) - unit, (ep[-1][1] // unit + 2) * unit]
+    for (_, e0), (s1, _) in zip(ep, ep[1:]):
+        g = (e0 // unit + 1) * unit
+        if e0 < g < s1 and rng.random() < 0.6:
+            ex.append(g)
+    return sorted(ex)
+
+
+def settle_forms(sp, ts, ep, extras):
+    """forms that cannot carry this case's instants exactly fall back to the common form (so that the evidence counts what was really run)"""
+    ticks = list(ts) + list(extras) + [v for se in ep for v in se]
+    ticks += [min(ticks) - 2 * SEC, max(ticks) + 2 * SEC]
+    a = G.arr(ticks)
+    if sp["tform"] == "f32" and not np.array_equal(a.astype(np.float32).astype(float), a):
+        sp["tform"] = "ndarray"
+    if sp["dform"] == "list" and sp["dtype"] not in ("float64", "int64", "bool"):
+        sp["dform"] = "ndarray"
+    if sp["dform"] == "fortran" and not sp["dshape"]:
+        sp["dform"] = "noncontig"
+    if sp["kind"] == "TsdFrame" and sp["dshape"] == [1] and sp["hist"] == "colpick":
+        sp["pick_style"] = "pos"       # frame.loc[[one label]] gives a Tsd (indexing, not this property's business)
+
+
+def gen_fc(rng, c):
+    """one widened convolve case, as plain data"""
+    family = "seconds" if rng.random() < 0.3 else "dyadic"
+    unit = SEC if family == "seconds" else U
+    int_forms = family == "seconds" and rng.random() < 0.7
+    off = 0 if (int_forms or rng.random() < 0.3) else unit // 5
+    ts, ep = rand_case_w(rng, unit, off)
+    placement, unsigned, ts, ep = place(rng, ts, ep, unit, int_forms)
+    sp = pick_spec(rng, int_forms, unsigned)
+    extras = outside(rng, ts, ep, unit)
+    settle_forms(sp, ts, ep, extras)
+    dt = sp["dtype"]
+    nc = int(np.prod(sp["dshape"])) if sp["dshape"] else 1
+    T = len(ts)
+    lo, hi = val_range(dt)
+    data = [[rng.randint(lo, hi) for _ in ts] for _ in range(nc)]
+    data2 = [[rng.randint(lo, hi) for _ in ts] for _ in range(nc)]
+    special = dt in ("float64", "float32") and rng.random() < 0.25
+    if special:
+        for _ in range(rng.randint(1, 3)):
+            data[rng.randrange(nc)][rng.randrange(T)] = rng.choice([float("nan"), float("inf"), float("-inf")])
+    if rng.random() < 0.05:
+        v = rng.randint(lo, hi)
+        data = [[v for _ in ts] for _ in range(nc)]          # all-equal data (zeros when v == 0)
+        special = False
+    klen = rng.choice([1, 2, 3, 4, 5, 6, 7, 9])
+    kcols = rng.choice([0, 0, 1, 2, 3])
+    kform = pick(rng, "f64", KFORMS, 0.6)
+    if sp["kind"] == "Tsd" and not kcols and rng.random() < 0.15:
+        kform = "view_of_data"
+    if kform == "fortran" and not kcols:
+        kform = "noncontig"
+    if kform == "halves" and special:
+        kform = "f64"
+    if kform == "view_of_data" and (sp["kind"] != "Tsd" or kcols or special or T < klen or not safe_pair(dt, dt, 50 * 9 * klen)
+                                    or sp["hist"] in ("restrict", "colpick") or sp["dform"] == "list"):
+        kform = "f64"
+    klo, khi = (0, 5) if kform == "u8" else (0, 1) if kform == "bool" else (-5, 5)
+    kern = [[rng.randint(klo, khi) for _ in range(klen)] for _ in range(max(kcols, 1))]
+    if kform == "view_of_data":
+        kern = [list(data[0][:klen])]
+    if kform in KDTYPE and not safe_pair(dt, KDTYPE[kform], 72 * max(sum(abs(v) for v in k) for k in kern)):
+        kform = rng.choice(["i64", "f64"])
+    route = rng.choice(["support_omit", "support_omit", "support_None_kw", "support_None_pos", "ep_kw", "ep_pos", "ep_kw"])
+    r_ = rng.random()
+    if r_ < 0.03:
+        route = "ep_empty"
+    elif r_ < 0.06:
+        route = "ep_miss"
+    if kform == "view_of_data" and route.startswith("ep_"):
+        route = "support_omit"
+    trim = rng.choice(TRIMS)
+    positional_ep = route in ("support_None_pos", "ep_pos")
+    tstyle = rng.choice(["kw", "pos"] if positional_ep else ["kw"]) if (trim != "both" or rng.random() < 0.5) else "omit"
+    astyle = "pos" if positional_ep else rng.choice(["pos", "kw"])
+    sgn = dt_class(dt) in ("uint", "bool")
+    cs = {"part": "forms_convolve", "index": c, "family": family, "placement": placement, "ts": ts, "ep": ep, "extras": extras, "spec": sp,
+          "data": data, "data2": data2, "special": special, "kernel": kern, "kcols": kcols, "kform": kform, "route": route, "trim": trim,
+          "tstyle": tstyle, "astyle": astyle, "trim_variant": rng.choice(["upper", "title"]) if rng.random() < 0.08 else None,
+          "ep_arg_form": pick(rng, "arrays", EFORMS + (tuple(f for f in EFORMS_INT if unsigned or not f.startswith("u")) if int_forms else ())),
+          "ep_arg_meta": rng.random() < 0.4, "a": rng.randint(0 if sgn else -4, 4), "b": rng.randint(0 if sgn else -4, 4), "rseed": rng.randrange(2 ** 30)}
+    line = None
+    if not special:
+        line = "frame\t%d\t%s\t%s\t%d %d\t%s\t%s" % (MODE[trim], C.fmt_ints(ts), C.fmt_iset(ep), nc, len(kern),
+                                                     "\t".join(C.fmt_ints(d) for d in data), "\t".join(C.fmt_ints(k) for k in kern))
+    return cs, line
+
+
+def make_kernel(kform, kern, kcols, x):
+    base = np.array(kern, dtype=float).T if kcols else np.array(kern[0], dtype=float)
+    if kform in KDTYPE:
+        return base.astype(KDTYPE[kform])
+    if kform == "halves":
+        return base * 0.5
+    if kform == "list":
+        return base.tolist()
+    if kform == "tuple":
+        return tuple(base.tolist())
+    if kform == "noncontig":
+        big = np.full((2 * base.shape[0],) + base.shape[1:], 99.0)
+        big[::2] = base
+        return big[::2]
+    if kform == "negstride":
+        return np.ascontiguousarray(base[::-1])[::-1]
+    if kform == "fortran":
+        return np.asfortranarray(base)
+    if kform == "view_of_data":
+        return x.values[:len(kern[0])]        # shares memory with the signal it is convolved with
+    raise ValueError(kform)
+
+
+def conv_call(xo, karr, route, epo2, trimarg, tstyle, astyle):
+    args, kw = [], {}
+    if astyle == "kw":
+        kw["array"] = karr
+    else:
+        args.append(karr)
+    if route == "support_None_kw":
+        kw["ep"] = None
+    elif route == "support_None_pos":
+        args.append(None)
+    elif route == "ep_pos":
+        args.append(epo2)
+    elif route in ("ep_kw", "ep_empty", "ep_miss"):
+        kw["ep"] = epo2
+    if tstyle == "kw":
+        kw["trim"] = trimarg
+    elif tstyle == "pos":
+        args.append(trimarg)
+    return xo.convolve(*args, **kw)
+
+
+def check_fc(res, nap, cs, mline):
+    rng = random.Random(cs["rseed"])
+    ts, ep, sp = list(cs["ts"]), [tuple(e) for e in cs["ep"]], cs["spec"]
+    kind, dshape, dt = sp["kind"], tuple(sp["dshape"]), sp["dtype"]
+    data, data2, kern, kcols, trim, route = cs["data"], cs["data2"], cs["kernel"], cs["kcols"], cs["trim"], cs["route"]
+    special, kform, extras = cs["special"], cs["kform"], cs["extras"]
+    nc, nk, T, klen = len(data), len(kern), len(ts), len(kern[0])
+    wide = route.startswith("ep_")
+    rows = epoch_rows(ts, ep)
+    short = any(0 < len(r) < klen for r in rows)
+    res.case(("forms_convolve", cs["index"], tuple(ts), tuple(ep), kind, kcols, klen, trim), nontrivial=len(ep) > 1)
+    res.count("forms_convolve_cases")
+    for nm in ("family", "placement", "kform", "route", "tstyle", "astyle"):
+        res.count("fc_%s_%s" % (nm, cs[nm]))
+    for nm in ("dtype", "dform", "tform", "eform", "hist"):
+        res.count("fc_%s_%s" % (nm, sp[nm]))
+    res.count("fc_kind_" + kind)
+    if kind == "TsdFrame":
+        res.count("fc_labels_" + sp["labels"])
+    if special:
+        res.count("fc_data_with_nan_or_inf")
+    if len(set(v for d in data for v in d if v == v)) <= 1 and not special:
+        res.count("fc_all_equal_data")
+    if any(t in (s, e) for t in ts for s, e in ep):
+        res.count("fc_sample_on_interval_end")
+    if wide and cs["ep_arg_meta"]:
+        res.count("fc_ep_argument_with_metadata")
+    if wide:
+        res.count("fc_ep_arg_form_" + cs["ep_arg_form"])
+    inp = {"case": cs}
+    kk = {"op": "convolve", "kind": kind, "kernel_2d": bool(kcols), "widened": True, "data_dtype": dt, "kernel_form": kform, "route": route,
+          "hist": sp["hist"], "tform": sp["tform"], "eform": sp["eform"], "special_values": bool(special)}
+
+    def build(cols, spec=sp):
+        return realise(nap, spec, ts, cols, ep, extras, wide)
+
+    try:
+        x, xlabels, uts, ucols = build(data)
+        sup_in = [(min(uts + [s for s, _ in ep]) - 2 * SEC, max(uts + [e for _, e in ep]) + 2 * SEC)] if wide else list(ep)
+        if not holds(x, kind, uts, ucols, sup_in, xlabels, dshape):
+            res.disagreements.append({"op": "build (harness precondition: the constructed input is not the intended one)", "input": inp,
+                                      "impl": [[C.to_ns(t) for t in x.t], support_of(x), np.asarray(x.values, dtype=float).tolist()]})
+            return
+    except Exception as ex:
+        res.disagreements.append({"op": "build (harness precondition: constructing the input raised)", "input": inp, "impl": "%s: %s" % (type(ex).__name__, str(ex)[:120])})
+        return
+    if route == "ep_empty":
+        epo2 = make_ep(nap, [], cs["ep_arg_form"])
+    elif route == "ep_miss":
+        far = max(uts + [e for _, e in ep]) + 40 * SEC
+        epo2 = make_ep(nap, [(far, far + SEC)], cs["ep_arg_form"], cs["ep_arg_meta"])
+    else:
+        epo2 = make_ep(nap, ep, cs["ep_arg_form"], cs["ep_arg_meta"]) if wide else None
+    karr = make_kernel(kform, kern, kcols, x)
+    half = kform == "halves"
+    variant = cs["trim_variant"]
+    trimarg = trim if (variant is None or cs["tstyle"] == "omit") else (trim.upper() if variant == "upper" else trim.title())
+
+    def call(xo, k_=None, t_=None):
+        return conv_call(xo, karr if k_ is None else k_, route, epo2, trimarg if t_ is None else t_, cs["tstyle"], cs["astyle"])
+
+    # forms the documented signature does not promise to accept (a trim in another letter case, a list / tuple kernel): the call either raises a
+    # clean Python exception (then the accepted form is used for the rest of the case) or it must satisfy the statement like any other call
+    if trimarg != trim:
+        try:
+            call(x)
+            res.count("fc_trim_other_case_accepted")
+        except Exception:
+            res.count("fc_trim_other_case_rejected")
+            trimarg = trim
+    if kform in OPTIONAL_KFORMS:
+        try:
+            call(x)
+            res.count("fc_kernel_%s_accepted" % kform)
+        except Exception:
+            res.count("fc_kernel_%s_rejected" % kform)
+            karr = np.array(kern, dtype=float).T if kcols else np.array(kern[0], dtype=float)
+    kk["integer_kernel"] = bool(getattr(karr, "dtype", np.dtype(float)).kind in "iu")
+    try:
+        r = call(x)
+    except Exception as ex:
+        res.violations.append({"key": dict(kk, part="exception", exception=type(ex).__name__, nonfinite_data=bool(special)),
+                               "what": "convolve raised %s: %s" % (type(ex).__name__, str(ex)[:80]), "input": inp})
+        return
+    if route in ("ep_empty", "ep_miss"):
+        # no sample at all inside ep: the restricted input holds no timestamp and (pynapple invariant) an empty support
+        res.count("fc_no_sample_inside_ep")
+        eshape0 = (0,) + dshape + ((nk,) if kcols else ())
+        if len(r.t) != 0 or support_of(r) != [] or tuple(r.shape) != eshape0:
+            res.violations.append({"key": dict(kk, part="time_axis", no_sample=True), "what": "convolve on an ep holding no sample did not return the empty series", "input": inp,
+                                   "impl": [list(r.shape), support_of(r)], "expected": [list(eshape0), []]})
+        return
+    fl = float if special else int
+    exp = [[[fl(v) for v in oracle_convolve(ts, data[i], ep, kern[j], trim)] for j in range(nk)] for i in range(nc)]
+    alt = exp
+    if trim == "both" and klen % 2 == 0:
+        alt = [[[fl(v) for v in oracle_convolve(ts, data[i], ep, kern[j], trim, ceil_split=True)] for j in range(nk)] for i in range(nc)]
+    eshape = (T,) + dshape + ((nk,) if kcols else ())
+    etype = {1: "Tsd", 2: "TsdFrame"}.get(len(eshape), "TsdTensor")
+    if [C.to_ns(t) for t in r.t] != ts or support_of(r) != list(ep):
+        res.violations.append({"key": dict(kk, part="time_axis"), "what": "convolve changed the timestamps / time support", "input": inp,
+                               "impl": [[C.to_ns(t) for t in r.t], support_of(r)], "expected": [ts, list(ep)]})
+        return
+    if tuple(r.shape) != eshape or type(r).__name__ != etype:
+        res.violations.append({"key": dict(kk, part="shape"), "what": "output shape/type is not input shape (+ kernel columns)", "input": inp,
+                               "impl": [type(r).__name__, list(r.shape)], "expected": [etype, list(eshape)]})
+        return
+    if kind == "TsdFrame" and not kcols and (list(r.columns) != list(xlabels) or list(r.columns) != list(x.columns)):
+        res.violations.append({"key": dict(kk, part="columns", labels=sp["labels"]), "what": "1-D kernel: column labels not kept", "input": inp,
+                               "impl": list(map(str, r.columns)), "expected": list(map(str, xlabels))})
+
+    def columns_of(vals):
+        g3 = np.asarray(vals, dtype=float).reshape(T, nc, nk) * (2 if half else 1)
+        return [[g3[:, i, j].tolist() for j in range(nk)] for i in range(nc)]
+
+    got = columns_of(r.values)
+    if not same(got, exp) and not same(got, alt):
+        res.violations.append({"key": dict(kk, part="values", trim=trim, k_even=klen % 2 == 0, short_epoch=bool(short)),
+                               "what": "entry (column i, kernel column j) is not column i convolved per epoch with kernel column j, trimmed on the requested side",
+                               "input": inp, "impl": got, "expected": exp})
+    if mline is not None:
+        m = parse(mline)
+        mm = [[[float(v) for v in m[i * nk + j]] for j in range(nk)] for i in range(nc)]
+        if not same(mm, got):
+            res.disagreements.append({"op": "convolve_frame (widened forms)", "input": inp, "impl": got, "model": mm})
+    # the same live objects (signal, kernel, ep) used a second time
+    try:
+        r2 = call(x)
+        if not same(r2.values, r.values) or [C.to_ns(t) for t in r2.t] != ts or support_of(r2) != list(ep):
+            res.violations.append({"key": dict(kk, part="values", second_call=True), "what": "a second identical call on the same live objects gives another result", "input": inp})
+    except Exception as ex:
+        res.violations.append({"key": dict(kk, part="exception", second_call=True, exception=type(ex).__name__), "what": "second identical call raised " + type(ex).__name__, "input": inp})
+    if special:
+        res.count("fc_independence_checks_with_nan_inf")
+    # linearity (exact: integers); the combination is stored in the signal's dtype when it fits, in float64 otherwise
+    a, b = cs["a"], cs["b"]
+    if not special:
+        comb = [[a * u + b * v for u, v in zip(d1, d2)] for d1, d2 in zip(data, data2)]
+        spc = sp if (fits(comb, dt) and rng.random() < 0.7) else dict(sp, dtype="float64")
+        if spc is not sp:
+            res.count("fc_linearity_combination_in_float64")
+        try:
+            k2 = karr if kform != "view_of_data" else np.array(kern[0], dtype=float)     # the kernel is held fixed (a view of x's data would follow the signal)
+            r0 = r if kform != "view_of_data" else call(x, k2)
+            ry = call(build(data2)[0], k2)
+            rz = call(build(comb, spc)[0], k2)
+            if not same(np.asarray(rz.values, dtype=float), a * np.asarray(r0.values, dtype=float) + b * np.asarray(ry.values, dtype=float)):
+                res.violations.append({"key": dict(kk, part="linearity"), "what": "convolve(a*x + b*y) != a*convolve(x) + b*convolve(y)", "input": dict(inp, a=a, b=b)})
+        except Exception as ex:
+            res.violations.append({"key": dict(kk, part="exception", linearity=True, exception=type(ex).__name__),
+                                   "what": "convolve raised %s: %s" % (type(ex).__name__, str(ex)[:80]), "input": inp})
+    # independence: every OTHER epoch overwritten (for float data also by NaN / +-inf), epoch q's output must not move
+    if len(ep) > 1 and kform != "view_of_data":
+        q = rng.randrange(len(ep))
+        blo, bhi = val_range(dt, big=True)
+        data3 = [[d[i] if i in rows[q] else rng.randint(blo, bhi) for i in range(T)] for d in data]
+        nonfin3 = special
+        if dt in ("float64", "float32") and rng.random() < 0.5:
+            others = [i for i in range(T) if i not in rows[q]]
+            for _ in range(rng.randint(1, 3)):
+                if others:
+                    data3[rng.randrange(nc)][rng.choice(others)] = rng.choice([float("nan"), float("inf"), float("-inf")])
+                    nonfin3 = True
+            res.count("fc_independence_other_epochs_nan_inf")
+        try:
+            r3 = call(build(data3)[0])
+            if not same(np.asarray(r3.values, dtype=float)[rows[q]], np.asarray(r.values, dtype=float)[rows[q]]):
+                res.violations.append({"key": dict(kk, part="independence"), "what": "output inside an epoch changed when only data of OTHER epochs changed",
+                                       "input": dict(inp, epoch=q, data_changed=data3)})
+        except Exception as ex:
+            res.violations.append({"key": dict(kk, part="exception", independence=True, exception=type(ex).__name__, nonfinite_data=bool(nonfin3)),
+                                   "what": "convolve raised %s: %s" % (type(ex).__name__, str(ex)[:80]), "input": dict(inp, data_changed=data3)})
+        res.count("fc_independence_checks")
+
+
+def part_forms_convolve(res, nap, tier, seed, only=None):
+    """part 6: convolve on every argument form (see res.rule); one private rng per case so that a case replays on its own"""
+    N = 900 if tier == "quick" else 9000
+    cases, lines = [], []
+    for c in (range(N) if only is None else [only]):
+        cs, line = gen_fc(random.Random((seed * 11 + 9) * 1000003 + c), c)
+        cases.append((cs, line))
+        if line is not None:
+            lines.append(line)
+    out = iter(C.run_model(lines, driver="driver_c18")) if lines else iter(())
+    for cs, line in cases:
+        check_fc(res, nap, cs, next(out) if line is not None else None)
+        if cs["index"] % 301 == 0 and not cs["special"]:
+            res.sample({"forms_convolve": {k: cs[k] for k in ("family", "placement", "kform", "route", "trim", "tstyle")}, "spec": cs["spec"], "epochs": len(cs["ep"])})
+
+
+def regular_case_w(rng, min_len, step, off, emax=3):
+    """regular_case on the lattice `step`; interval ends `off` ticks off the first / last sample (0: exactly on them)"""
+    m = rng.randint(1, emax)
+    ts, ep, t = [], [], rng.randrange(1, 20) * step
+    for _ in range(m):
+        ln = min_len + rng.choice([0, 1, 2, 5, 9, 17])
+        inside = [t + j * step for j in range(ln)]
+        ts += inside
+        ep.append((inside[0] - off, inside[-1] + off))
+        t = inside[-1] + rng.choice([2, 3, 11]) * step
+    return ts, ep
+
+
+def typed(v, form):
+    """a scalar argument in the requested form"""
+    if form == "int":
+        return int(round(v))
+    if form == "np.float64":
+        return np.float64(v)
+    if form == "np.float32":
+        return np.float32(v)
+    if form == "np.int64":
+        return np.int64(int(round(v)))
+    if form == "0d":
+        return np.array(float(v))
+    return float(v)
+
+
+INT_FORMS = ("int", "np.int64", "tuple_int", "tuple_mixed")
+UNIT_DIV = {"s": 1e9, "ms": 1e6, "us": 1e3}
+
+
+def gen_ff(rng, c):
+    """one widened smooth / windowed-sinc / Butterworth case, as plain data"""
+    family = "seconds" if rng.random() < 0.3 else "dyadic"
+    step = SEC if family == "seconds" else 2 * U
+    int_forms = family == "seconds" and rng.random() < 0.7
+    off = 0 if (int_forms or rng.random() < 0.3) else (U // 5 if family == "dyadic" else 2 * 10 ** 8)
+    ts, ep = regular_case_w(rng, 30, step, off)
+    placement, unsigned, ts, ep = place(rng, ts, ep, step, int_forms)
+    sp = pick_spec(rng, int_forms, unsigned, frame_cols=(2, 3))
+    extras = outside(rng, ts, ep, step)
+    settle_forms(sp, ts, ep, extras)
+    dt = sp["dtype"]
+    nc = int(np.prod(sp["dshape"])) if sp["dshape"] else 1
+    lo, hi = val_range(dt)
+    data = [[rng.randint(lo, hi) for _ in ts] for _ in range(nc)]
+    d2 = [[rng.randint(lo, hi) for _ in ts] for _ in range(nc)]
+    if rng.random() < 0.05:
+        v = rng.randint(lo, hi)
+        data = [[v for _ in ts] for _ in range(nc)]
+    pos = dt_class(dt) in ("uint", "bool")
+    # ---- smooth
+    unit = rng.choice(["s", "s", "ms", "us"])
+    std_form = pick(rng, "float", ("int", "np.float64", "np.float32", "np.int64", "0d"), 0.5)
+    if std_form in ("int", "np.int64"):
+        unit = "us"                       # the only unit in which the value is a whole number
+    sm = {"std_ticks": int(rng.choice([1, 2, 3]) * step * 1.0001) // 1000 * 1000, "unit": unit, "std_form": std_form,
+          "ws_mode": rng.choice(["omit", "None", "value", "value"]), "ws_ticks": int(rng.choice([5, 8]) * step * 1.0001) // 1000 * 1000,
+          "ws_form": pick(rng, "float", ("int", "np.float64", "np.float32", "np.int64"), 0.5),
+          "sf": rng.choice(["omit", 3, 4]), "norm": rng.choice(["omit", True, False]), "style": rng.choice(["kw", "pos", "mixed"])}
+    if sm["ws_form"] in ("int", "np.int64") and sm["ws_mode"] == "value" and unit != "us":
+        sm["ws_form"] = "float"
+    # ---- the filters: one shared set of argument forms for the four windowed-sinc calls, one per Butterworth call
+    def filt_forms(mode):
+        intable = family == "dyadic"
+        cf = pick(rng, "float", ("int", "np.float64", "np.float32", "np.int64") if intable else ("np.float64", "np.float32"), 0.5)
+        bf = pick(rng, "tuple", ("list", "ndarray", "tuple_int", "tuple_mixed") if intable else ("list", "ndarray"), 0.5)
+        cfg = {"cut_form": cf, "band_form": bf, "fs_form": pick(rng, "float", ("int", "np.float64", "np.int64", "None", "omit"), 0.5),
+               "style": rng.choice(["kw", "kw", "pos", "mixed"]), "mode_variant": rng.choice(["upper", "title"]) if rng.random() < 0.08 else None}
+        if mode == "sinc":
+            cfg.update(mode="sinc", order=rng.choice(["omit", "omit", 2, 4]), order_form="int",
+                       tb=rng.choice(["omit", 0.5, 0.4, 0.25, 0.1]), tb_form=pick(rng, "float", ("np.float64", "np.float32"), 0.3))
+        else:
+            cfg.update(mode=rng.choice(["omit", "butter"]), order=rng.choice(["omit", 1, 2, 3, 4]), order_form=pick(rng, "int", ("np.int64", "float"), 0.12),
+                       tb=rng.choice(["omit", "omit", 0.3]), tb_form="float")
+        if cfg["mode"] == "omit":
+            cfg["mode_variant"] = None
+        return cfg
+    fs = 1e9 / step
+    sinc = filt_forms("sinc")
+    f1 = rng.choice([0.08, 0.15, 0.22]) * fs
+    f2 = f1 + rng.choice([0.1, 0.2]) * fs
+    if sinc["cut_form"] in INT_FORMS or sinc["band_form"] in INT_FORMS:
+        f1, f2 = float(round(f1)), float(round(f2))
+    sinc["cut"] = [f1, f2]
+    butter = []
+    for ftype in rng.sample(["lowpass", "highpass", "bandpass", "bandstop"], 2):
+        cfg = filt_forms("butter")
+        g1 = rng.choice([0.06, 0.1, 0.2, 0.3]) * fs
+        g2 = g1 + rng.choice([0.05, 0.1, 0.14]) * fs
+        if cfg["cut_form"] in INT_FORMS or cfg["band_form"] in INT_FORMS:
+            g1, g2 = float(round(g1)), float(round(g2))
+        cfg.update(ftype=ftype, cut=[g1, g2])
+        butter.append(cfg)
+    return {"part": "forms_filters", "index": c, "family": family, "placement": placement, "step": step, "ts": ts, "ep": ep, "extras": extras, "spec": sp,
+            "data": data, "data2": d2, "a": rng.randint(0 if pos else -3, 3), "b": rng.randint(0 if pos else -3, 3), "smooth": sm, "sinc": sinc, "butter": butter,
+            "others": rng.choice(["finite", "finite", "inf", "nan"]) if dt in ("float64", "float32") else "finite", "rseed": rng.randrange(2 ** 30)}
+
+
+def smooth_args(sm, canonical=False):
+    """(args, kwargs, effective std / windowsize in seconds, size_factor, norm) of the smooth call `sm` describes"""
+    div = UNIT_DIV[sm["unit"]]
+    stdv = typed(sm["std_ticks"] / div, "float" if canonical else sm["std_form"])
+    wsv = typed(sm["ws_ticks"] / div, "float" if canonical else sm["ws_form"]) if sm["ws_mode"] == "value" else None
+    sf = 100 if sm["sf"] == "omit" else sm["sf"]
+    norm = True if sm["norm"] == "omit" else sm["norm"]
+    if sm["style"] == "pos":
+        return [stdv, wsv, sm["unit"], sf, norm], {}, stdv, wsv, sf, norm
+    kw = {}
+    if sm["ws_mode"] != "omit":
+        kw["windowsize"] = wsv
+    if sm["unit"] != "s":
+        kw["time_units"] = sm["unit"]
+    if sm["sf"] != "omit":
+        kw["size_factor"] = sf
+    if sm["norm"] != "omit":
+        kw["norm"] = norm
+    if sm["style"] == "mixed":
+        return [stdv], kw, stdv, wsv, sf, norm
+    return [], dict(kw, std=stdv), stdv, wsv, sf, norm
+
+
+def make_cut(cfg, band):
+    f1, f2 = cfg["cut"]
+    if not band:
+        return typed(f1, cfg["cut_form"])
+    bf = cfg["band_form"]
+    if bf == "list":
+        return [float(f1), float(f2)]
+    if bf == "ndarray":
+        return np.array([f1, f2], dtype=float)
+    if bf == "tuple_int":
+        return (int(f1), int(f2))
+    if bf == "tuple_mixed":
+        return (int(f1), np.float32(f2))
+    return (float(f1), float(f2))
+
+
+def filter_call(nap, cfg, ftype, cut, fs, canonical=False):
+    """-> (callable on a signal, effective fs or None, effective order, effective transition bandwidth)"""
+    fun = getattr(nap, "apply_%s_filter" % ftype)
+    ff = cfg["fs_form"]
+    fsv = None if ff in ("None", "omit") else typed(fs, ff)
+    mode = cfg["mode"]
+    mstr = mode
+    if mode != "omit" and cfg["mode_variant"] and not canonical:
+        mstr = mode.upper() if cfg["mode_variant"] == "upper" else mode.title()
+    order = 4 if cfg["order"] == "omit" else typed(cfg["order"], "int" if canonical else cfg["order_form"])
+    tb = 0.02 if cfg["tb"] == "omit" else typed(cfg["tb"], "float" if canonical else cfg["tb_form"])
+    if cfg["style"] == "pos":
+        return (lambda xo: fun(xo, cut, fsv, "butter" if mode == "omit" else mstr, order, tb)), fsv, order, tb
+    kw = {}
+    if ff != "omit":
+        kw["fs"] = fsv
+    if mode != "omit":
+        kw["mode"] = mstr
+    if cfg["order"] != "omit":
+        kw["order"] = order
+    if cfg["tb"] != "omit":
+        kw["transition_bandwidth"] = tb
+    if cfg["style"] == "mixed":
+        return (lambda xo: fun(xo, cut, **kw)), fsv, order, tb
+    return (lambda xo: fun(data=xo, cutoff=cut, **kw)), fsv, order, tb
+
+
+def optional_forms(cfg):
+    """argument forms the documented signature does not promise to accept: the call raises a clean Python exception or satisfies the statement"""
+    return bool(cfg["mode_variant"]) or (cfg["order"] != "omit" and cfg["order_form"] != "int") or (cfg["tb"] != "omit" and cfg["tb_form"] == "np.float32")
+
+
+def check_ff(res, nap, cs):
+    from scipy import signal
+    from scipy.signal import butter as sp_butter, sosfiltfilt
+    rng = random.Random(cs["rseed"])
+    ts, ep, sp, step = list(cs["ts"]), [tuple(e) for e in cs["ep"]], cs["spec"], cs["step"]
+    kind, dshape, dt = sp["kind"], tuple(sp["dshape"]), sp["dtype"]
+    data, d2, a, b, extras = cs["data"], cs["data2"], cs["a"], cs["b"], cs["extras"]
+    nc, T = len(data), len(ts)
+    fs = 1e9 / step
+    rows = epoch_rows(ts, ep)
+    res.case(("forms_filters", cs["index"], kind, dt, len(ep)), nontrivial=len(ep) > 1)
+    res.count("forms_filters_cases")
+    for nm in ("family", "placement", "others"):
+        res.count("ff_%s_%s" % (nm, cs[nm]))
+    for nm in ("dtype", "dform", "tform", "eform", "hist"):
+        res.count("ff_%s_%s" % (nm, sp[nm]))
+    res.count("ff_kind_" + kind)
+    if kind == "TsdFrame":
+        res.count("ff_labels_" + sp["labels"])
+    if any(t in (s, e) for t in ts for s, e in ep):
+        res.count("ff_sample_on_interval_end")
+    inp = {"case": cs}
+    comb = [[a * u + b * v for u, v in zip(p, q_)] for p, q_ in zip(data, d2)]
+    spc = sp if (fits(comb, dt) and rng.random() < 0.6) else dict(sp, dtype="float64")
+    q = rng.randrange(len(ep))
+    d3 = None
+    if len(ep) > 1:
+        blo, bhi = val_range(dt, big=True)
+        d3 = [[d[i] if i in rows[q] else rng.randint(blo, bhi) for i in range(T)] for d in data]
+        if cs["others"] != "finite":
+            others = [i for i in range(T) if i not in rows[q]]
+            v = float("nan") if cs["others"] == "nan" else rng.choice([float("inf"), float("-inf")])
+            for _ in range(rng.randint(1, 2)):
+                d3[rng.randrange(nc)][rng.choice(others)] = v
+    try:
+        built = [realise(nap, s_, ts, cols, ep, extras) for cols, s_ in ((data, sp), (d2, sp), (comb, spc))] + ([realise(nap, sp, ts, d3, ep, extras)] if d3 else [])
+        for (o, lab, uts, ucols), kd in zip(built, [sp, sp, spc, sp]):
+            if not holds(o, kind, uts, ucols, ep, lab, dshape):
+                res.disagreements.append({"op": "build (harness precondition: the constructed input is not the intended one)", "input": inp,
+                                          "impl": [[C.to_ns(t) for t in o.t][:6], support_of(o), type(o).__name__]})
+                return
+    except Exception as ex:
+        res.disagreements.append({"op": "build (harness precondition: constructing the input raised)", "input": inp, "impl": "%s: %s" % (type(ex).__name__, str(ex)[:120])})
+        return
+    x, y, z = built[0][0], built[1][0], built[2][0]
+    x3 = built[3][0] if d3 else None
+    xlabels = built[0][1]
+    eff = x.values.dtype.name
+    integer_signal = bool(np.dtype(eff).kind in "iub")
+    base_key = {"kind": kind, "widened": True, "data_dtype": eff, "integer_signal": integer_signal, "unsigned_signal": bool(np.dtype(eff).kind == "u"), "float32_signal": eff == "float32",
+                "hist": sp["hist"], "tform": sp["tform"], "eform": sp["eform"]}
+    scale = 9.0
+
+    def fvals(o):
+        return np.asarray(o.values, dtype=float)
+
+    def common(kk, f, r, lin_scale, nan_may_raise):
+        """time axis (timestamps, support, shape, type, labels), independence, linearity of one operation `f` whose output on x is r"""
+        if not axis_ok(r, x, ts, ep) or (xlabels is not None and list(r.columns) != list(xlabels)):
+            res.violations.append({"key": dict(kk, part="time_axis"), "what": "%s changed timestamps / support / shape / columns" % kk["op"], "input": inp})
+            return False
+        if x3 is not None:
+            try:
+                r3 = f(x3)
+                if not same(fvals(r3)[rows[q]], fvals(r)[rows[q]]):
+                    res.violations.append({"key": dict(kk, part="independence", other_epochs=cs["others"]),
+                                           "what": "%s: an epoch's output changed with other epochs' data" % kk["op"], "input": dict(inp, epoch=q, data_changed=d3)})
+            except Exception as ex:
+                if cs["others"] == "nan" and nan_may_raise and isinstance(ex, ValueError):
+                    res.count("ff_filter_refuses_nan")       # documented refusal (ValueError naming the NaN), not an output
+                else:
+                    res.violations.append({"key": dict(kk, part="exception", independence=True, other_epochs=cs["others"], exception=type(ex).__name__),
+                                           "what": "%s raised %s: %s" % (kk["op"], type(ex).__name__, str(ex)[:80]), "input": dict(inp, data_changed=d3)})
+        ry, rz = fvals(f(y)), fvals(f(z))
+        rr = fvals(r)
+        sc = lin_scale if lin_scale is not None else max(1.0, float(np.max(np.abs(rz))), float(np.max(np.abs(rr))) * abs(a), float(np.max(np.abs(ry))) * abs(b))
+        if not close(rz, a * rr + b * ry, sc):
+            res.violations.append({"key": dict(kk, part="linearity"), "what": "%s is not linear in the signal (beyond the declared tolerance)" % kk["op"],
+                                   "input": dict(inp, a=a, b=b), "impl": float(np.max(np.abs(rz - a * rr - b * ry)))})
+        return True
+
+    # ------------------------------------------------------------ smooth
+    sm = cs["smooth"]
+    # std is chosen away from the places where int(rate * std) jumps (the statement says nothing about the window's length)
+    while abs(x.rate * sm["std_ticks"] / 1e9 - round(x.rate * sm["std_ticks"] / 1e9)) < 1e-3:
+        sm = dict(sm, std_ticks=sm["std_ticks"] + 20000)
+    for nm in ("unit", "std_form", "ws_mode", "style"):
+        res.count("ff_smooth_%s_%s" % (nm, sm[nm]))
+    if sm["ws_mode"] == "value":
+        res.count("ff_smooth_ws_form_" + sm["ws_form"])
+    res.count("ff_smooth_size_factor_%s" % sm["sf"])
+    res.count("ff_smooth_norm_%s" % sm["norm"])
+    kk = dict(base_key, op="smooth", time_units=sm["unit"], style=sm["style"])
+    optional = sm["std_form"] in ("np.float32", "np.int64", "0d")
+    args, kw, stdv, wsv, sf, norm = smooth_args(sm)
+    if optional:
+        try:
+            x.smooth(*args, **kw)
+            res.count("ff_smooth_std_%s_accepted" % sm["std_form"])
+        except Exception:
+            res.count("ff_smooth_std_%s_rejected" % sm["std_form"])
+            sm = dict(sm, std_form="float")
+            args, kw, stdv, wsv, sf, norm = smooth_args(sm)
+
+    def f_smooth(xo):
+        return xo.smooth(*args, **kw)
+    try:
+        r = f_smooth(x)
+        if common(kk, f_smooth, r, scale * 7 * (1 if norm else 10), False):
+            div = UNIT_DIV[sm["unit"]]
+            # the library rounds every time argument to the nanosecond: the forms that denote the same nanosecond are the same instants
+            lossless = round(float(stdv) * div) == sm["std_ticks"] and (wsv is None or round(float(wsv) * div) == sm["ws_ticks"])
+            if lossless:
+                # the same instants given in seconds (plain floats, keywords): the same result
+                ref = x.smooth(std=sm["std_ticks"] / 1e9, windowsize=(sm["ws_ticks"] / 1e9 if sm["ws_mode"] == "value" else None), time_units="s", size_factor=sf, norm=norm)
+                if not same(fvals(ref), fvals(r)):
+                    res.violations.append({"key": dict(kk, part="time_units"), "what": "smooth: the same std / windowsize given in another unit / form / call style gives another result",
+                                           "input": inp, "impl": float(np.nanmax(np.abs(fvals(ref) - fvals(r))))})
+                res.count("ff_smooth_same_instants_checks")
+            # correspondence: the window the docstring promises (not part of the statement)
+            w = gauss_window(x.rate, float(stdv) * div / 1e9, None if wsv is None else float(wsv) * div / 1e9, sf, norm)
+            g = fvals(r).reshape(T, nc)
+            for i in range(nc):
+                e = np.zeros(T)
+                for rw in rows:
+                    fconv = signal.convolve(np.array([data[i][j] for j in rw], dtype=float), w)
+                    cc = (len(w) - 1) // 2
+                    e[rw] = fconv[cc:cc + len(rw)]
+                if not close(g[:, i], e, scale * (1 if norm else 10)):
+                    res.disagreements.append({"op": "smooth(window := documented gaussian), widened forms", "input": inp, "impl": g[:, i].tolist()[:40], "model": e.tolist()[:40]})
+                    break
+    except Exception as ex:
+        res.violations.append({"key": dict(kk, part="exception", exception=type(ex).__name__), "what": "smooth raised %s: %s" % (type(ex).__name__, str(ex)[:80]), "input": inp})
+
+    # ------------------------------------------------------------ windowed sinc, four types
+    cfg = cs["sinc"]
+    for nm in ("cut_form", "band_form", "fs_form", "style", "order", "tb", "tb_form"):
+        res.count("ff_sinc_%s_%s" % (nm, cfg[nm]))
+    kk = dict(base_key, op="sinc", style=cfg["style"], fs_form=cfg["fs_form"])
+    canonical = False
+    cut1, cut2 = make_cut(cfg, False), make_cut(cfg, True)       # ONE object per cutoff, passed to both complementary calls
+    cuts = {"lowpass": cut1, "highpass": cut1, "bandpass": cut2, "bandstop": cut2}
+    if optional_forms(cfg):
+        try:
+            filter_call(nap, cfg, "lowpass", cut1, fs)[0](x)
+            res.count("ff_sinc_optional_form_accepted")
+        except Exception:
+            res.count("ff_sinc_optional_form_rejected")
+            canonical = True
+    try:
+        outs = {}
+        ok = True
+        for ftype in ("lowpass", "highpass", "bandpass", "bandstop"):
+            f, fsv, order, tb = filter_call(nap, cfg, ftype, cuts[ftype], fs, canonical)
+            outs[ftype] = f(x)
+            ok = common(dict(kk, filter=ftype), f, outs[ftype], scale * 7, True) and ok
+        if ok:
+            xv = fvals(x)
+            if not close(fvals(outs["lowpass"]) + fvals(outs["highpass"]), xv, scale):
+                res.violations.append({"key": dict(kk, part="lp_plus_hp"), "what": "windowed-sinc low-pass + high-pass outputs do not sum to the input", "input": inp,
+                                       "impl": float(np.max(np.abs(fvals(outs["lowpass"]) + fvals(outs["highpass"]) - xv)))})
+            if not close(fvals(outs["bandpass"]) + fvals(outs["bandstop"]), xv, scale):
+                res.violations.append({"key": dict(kk, part="bp_plus_bs"), "what": "windowed-sinc band-pass + band-stop outputs do not sum to the input", "input": inp,
+                                       "impl": float(np.max(np.abs(fvals(outs["bandpass"]) + fvals(outs["bandstop"]) - xv)))})
+            # correspondence: low-pass == convolution with the documented blackman-windowed sinc (cutoff, fs, transition bandwidth as passed; fs=None: the series' rate)
+            kl = sinc_lowpass(float(cut1), float(fsv) if fsv is not None else x.rate, float(tb))
+            g = fvals(outs["lowpass"]).reshape(T, nc)
+            for i in range(nc):
+                e = np.zeros(T)
+                for rw in rows:
+                    fconv = signal.convolve(np.array([data[i][j] for j in rw], dtype=float), kl)
+                    cc = (len(kl) - 1) // 2
+                    e[rw] = fconv[cc:cc + len(rw)]
+                if not close(g[:, i], e, scale):
+                    res.disagreements.append({"op": "sinc lowpass(kernel := documented windowed sinc), widened forms", "input": inp})
+                    break
+    except Exception as ex:
+        res.violations.append({"key": dict(kk, part="exception", exception=type(ex).__name__), "what": "sinc filter raised %s: %s" % (type(ex).__name__, str(ex)[:80]), "input": inp})
+
+    # ------------------------------------------------------------ Butterworth, two types
+    for cfg in cs["butter"]:
+        ftype = cfg["ftype"]
+        band = ftype in ("bandpass", "bandstop")
+        for nm in ("fs_form", "style", "mode", "order", "order_form", "tb"):
+            res.count("ff_butter_%s_%s" % (nm, cfg[nm]))
+        res.count("ff_butter_%s_%s" % ("band_form" if band else "cut_form", cfg["band_form" if band else "cut_form"]))
+        res.count("ff_butter_" + ftype)
+        kk = dict(base_key, op="butter", filter=ftype, style=cfg["style"], fs_form=cfg["fs_form"])
+        cut = make_cut(cfg, band)
+        canonical = False
+        if optional_forms(cfg):
+            try:
+                filter_call(nap, cfg, ftype, cut, fs)[0](x)
+                res.count("ff_butter_optional_form_accepted")
+            except Exception:
+                res.count("ff_butter_optional_form_rejected")
+                canonical = True
+        f, fsv, order, tb = filter_call(nap, cfg, ftype, cut, fs, canonical)
+        try:
+            r = f(x)
+        except Exception as ex:
+            res.violations.append({"key": dict(kk, part="exception", exception=type(ex).__name__, empty_epoch=False, short_epoch=False),
+                                   "what": "butterworth filter raised %s: %s" % (type(ex).__name__, str(ex)[:80]), "input": inp})
+            continue
+        try:
+            if not common(kk, f, r, None, True):
+                continue
+            if len(ep) > 1 and fsv is not None:
+                # the same epoch filtered on its own (the restricted object; with fs=None the rate, hence the design, would change)
+                one = x.restrict(nap.IntervalSet(ep[q][0] / 1e9, ep[q][1] / 1e9))
+                if not same(fvals(f(one)), fvals(r)[rows[q]]):
+                    res.violations.append({"key": dict(kk, part="independence_restrict"), "what": "filtering the restricted epoch differs from the epoch's rows of the whole result",
+                                           "input": dict(inp, epoch=q)})
+            if eff == "float64":
+                # correspondence (float64 signals: what the model's F covers): each epoch == scipy sosfiltfilt on that epoch's samples alone, bit-exact
+                cv = np.array([float(v) for v in cut]) if band else float(cut)
+                sos = sp_butter(int(order), cv, btype=ftype, fs=float(fsv) if fsv is not None else x.rate, output="sos")
+                g = fvals(r).reshape(T, nc)
+                for qq, rw in enumerate(rows):
+                    e = np.stack([sosfiltfilt(sos, np.array([data[i][j] for j in rw], dtype=float)) for i in range(nc)], axis=1)
+                    if not np.array_equal(g[rw], e):
+                        res.disagreements.append({"op": "butter(F := scipy sosfiltfilt on the epoch's samples alone), widened forms", "input": dict(inp, epoch=qq, filter=ftype)})
+                        break
+        except Exception as ex:
+            res.violations.append({"key": dict(kk, part="exception", exception=type(ex).__name__, empty_epoch=False, short_epoch=False, after_first_call=True),
+                                   "what": "butterworth filter raised %s: %s" % (type(ex).__name__, str(ex)[:80]), "input": inp})
+
+
+def part_forms_filters(res, nap, tier, seed, only=None):
+    """part 7: smooth, the four windowed-sinc filters and Butterworth on every argument form; one private rng per case"""
+    N = 110 if tier == "quick" else 1500
+    for c in (range(N) if only is None else [only]):
+        cs = gen_ff(random.Random((seed * 11 + 10) * 1000003 + c), c)
+        check_ff(res, nap, cs)
+        if c % 41 == 0:
+            res.sample({"forms_filters": {k: cs[k] for k in ("family", "placement", "smooth", "sinc")}, "spec": cs["spec"], "epochs": [len(r) for r in epoch_rows(cs["ts"], [tuple(e) for e in cs["ep"]])]})
+
+
+def part_forms_degenerate(res, nap, tier, seed):
+    """part 8: degenerate receivers in several forms. An EMPTY series (zero epochs: outside the statement's 'one or many epochs') must give the empty series or a clean
+    exception; a series of ONE sample, and a series whose timestamps all coincide, on an explicit support, are ordinary inputs (an epoch shorter than the kernel)"""
+    fs = 1e9 / (2 * U)
+    rng = random.Random(seed * 11 + 0)
+    ops = [("convolve", lambda o: o.convolve(np.array([1.0, 2.0, 3.0]))), ("convolve_left", lambda o: o.convolve(np.array([1, 2]), None, "left")),
+           ("smooth", lambda o: o.smooth(2 * 2 * U / 1e9 * 1.0001, size_factor=3)),
+           ("sinc", lambda o: nap.apply_lowpass_filter(o, 0.2 * fs, fs=fs, mode="sinc", transition_bandwidth=0.25)),
+           ("sinc_hp", lambda o: nap.apply_highpass_filter(o, 0.2 * fs, fs, "sinc", 4, 0.25)),
+           ("butter", lambda o: nap.apply_lowpass_filter(o, 0.2 * fs, fs=fs))]
+    for kind, dshape in (("Tsd", ()), ("TsdFrame", (2,)), ("TsdTensor", (2, 2))):
+        cls = getattr(nap, kind)
+        for dt in ("float64", "float32", "int64", "uint8", "bool"):
+            for tform in ("ndarray", "list", "ms"):
+                # ---- empty series
+                t_arg, kw = (np.array([]), {}) if tform == "ndarray" else ([], {}) if tform == "list" else (np.array([]), {"time_units": "ms"})
+                try:
+                    x0 = cls(t_arg, np.zeros((0,) + dshape, dtype=dt), **kw)
+                except Exception:
+                    continue
+                for nm, f in ops:
+                    res.case(("degenerate", "empty", kind, dt, tform, nm), nontrivial=False)
+                    res.count("degenerate_empty_series_calls")
+                    try:
+                        r = f(x0)
+                    except Exception:
+                        res.count("degenerate_empty_series_clean_exception")
+                        continue
+                    if len(r.t) != 0 or support_of(r) != [] or tuple(r.shape[1:len(dshape) + 1]) != dshape:
+                        res.violations.append({"key": {"op": nm, "part": "time_axis", "no_sample": True, "widened": True, "kind": kind, "data_dtype": dt},
+                                               "what": nm + " on an empty series did not return an empty series", "input": {"kind": kind, "dtype": dt, "tform": tform}})
+                # ---- one sample / all timestamps equal, explicit support (placed before, at and after 0)
+                for n_same in (1, 3):
+                    t0 = rng.choice([-7, 0, 5, 51200000]) * U
+                    ts = [t0] * n_same
+                    ep = [(t0 - U, t0 + U)]
+                    lo, hi = val_range(dt)
+                    nc = int(np.prod(dshape)) if dshape else 1
+                    data = [[rng.randint(max(lo, 1 if hi == 1 else lo), hi) for _ in ts] for _ in range(nc)]
+                    sp = {"kind": kind, "dshape": list(dshape), "dtype": dt, "dform": "ndarray", "labels": "default", "fmeta": False, "tform": tform, "eform": "arrays",
+                          "emeta": False, "ctor_kw": False, "hist": "direct", "restrict_default": False, "getitem": "full_slice", "arith": "mul1", "pick_style": "pos", "pick": []}
+                    x, lab, uts, ucols = realise(nap, sp, ts, data, ep)
+                    if not holds(x, kind, uts, ucols, ep, lab, dshape):
+                        res.disagreements.append({"op": "build (harness precondition, degenerate receiver)", "input": {"spec": sp, "ts": ts}})
+                        continue
+                    for nm, f in ops[:5]:
+                        res.case(("degenerate", n_same, kind, dt, tform, nm, t0), nontrivial=False)
+                        res.count("degenerate_one_sample_calls" if n_same == 1 else "degenerate_all_timestamps_equal_calls")
+                        key = {"op": nm, "widened": True, "kind": kind, "data_dtype": dt, "degenerate": "one_sample" if n_same == 1 else "all_equal_timestamps"}
+                        inp = {"spec": sp, "ts": ts, "ep": ep, "data": data}
+                        try:
+                            r = f(x)
+                        except Exception as ex:
+                            res.violations.append({"key": dict(key, part="exception", exception=type(ex).__name__), "what": "%s raised %s: %s" % (nm, type(ex).__name__, str(ex)[:80]), "input": inp})
+                            continue
+                        if not axis_ok(r, x, ts, ep):
+                            res.violations.append({"key": dict(key, part="time_axis"), "what": nm + " changed timestamps / support / shape / columns", "input": inp})
+                            continue
+                        if nm.startswith("convolve"):
+                            k, trim = ([1, 2, 3], "both") if nm == "convolve" else ([1, 2], "left")
+                            exp = np.array([oracle_convolve(ts, d, ep, k, trim) for d in data], dtype=float).T.reshape(r.shape)
+                            if not same(r.values, exp):
+                                res.violations.append({"key": dict(key, part="values", trim=trim), "what": "not the trimmed full convolution of the epoch's samples", "input": inp,
+                                                       "impl": np.asarray(r.values, dtype=float).tolist(), "expected": exp.tolist()})
+                    # low-pass + high-pass = input
+                    try:
+                        s_ = np.asarray(ops[3][1](x).values, dtype=float) + np.asarray(ops[4][1](x).values, dtype=float)
+                        if not close(s_, np.asarray(x.values, dtype=float), 9.0):
+                            res.violations.append({"key": {"op": "sinc", "part": "lp_plus_hp", "widened": True, "kind": kind, "data_dtype": dt, "degenerate": True},
+                                                   "what": "windowed-sinc low-pass + high-pass outputs do not sum to the input", "input": {"spec": sp, "ts": ts, "ep": ep, "data": data}})
+                    except Exception:
+                        pass        # already reported above
+
+
 def run(res, tier, seed):
     nap = _nap()
     warnings.simplefilter("ignore")
@@ -809,7 +1913,26 @@ def run(res, tier, seed):
                 "inversion / band kernels vs implementation, exact. (4) Butterworth x4 types x orders 1-4: time axis, restricted-object equality, independence, linearity (tolerance); correspondence: each epoch == "
                 "sosfiltfilt on that epoch alone (bit-exact), bookkeeping with an integer stand-in for sosfiltfilt. (5) a support with an interval holding no sample (first / middle / last) through smooth / sinc / "
                 "Butterworth, and with an interval of 1..padlen samples through Butterworth: no exception, time axis, the full intervals filtered as on their own. "
-                "non-trivial = more than one epoch (and no empty epoch in part 1)")
+                "non-trivial = more than one epoch (and no empty epoch in part 1). "
+                "WIDENED ARGUMENT FORMS (parts 6-8; one private rng per case, every axis leaves its most common value with probability 0.3-0.6 independently, so forms are also combined): "
+                "(6) convolve as in (2), (7) smooth + the four windowed-sinc filters + two Butterworth types on 1-3 regular epochs of 30..47 samples, (8) degenerate receivers. "
+                "Axis 1 data dtype: float64 / float32 / int64 / int32 / int16 / int8 / uint8..uint64 / bool signals (integer values, exact) and float64 / float32 / int64 / int16 / int8 / uint8 / bool / "
+                "halved kernels, only pairs whose NumPy result type holds every partial sum; float signals holding NaN / +inf / -inf (expected: what the brute-force sum gives, NaN matching NaN), all-equal and "
+                "zero signals; for independence the OTHER epochs are overwritten by large values and, for float data, by NaN / +-inf (a filter may refuse NaN by ValueError); linearity with the combination "
+                "stored in the signal's dtype or in float64. "
+                "Axis 2 forms of time arguments: t as ndarray / list / tuple / pandas Index / pandas Series-DataFrame object / another object's TsIndex / another object's .t / float32 / int64, int32, uint64, uint32 whole "
+                "seconds; supports and ep= as arrays / lists / tuples / 2-D array / DataFrame / integer and unsigned arrays, with and without metadata; scalars (std, windowsize, cutoff, fs, order, "
+                "transition_bandwidth) as Python float / int / np.float64 / np.float32 / np.int64 / 0-d array, band limits as tuple / list / ndarray / ints / mixed; forms the signature does not promise "
+                "(list / tuple kernel, np.float32 std, np.int64 order, float order, np.float32 bandwidth, a trim / mode string in another letter case) must raise a clean exception or satisfy the statement. "
+                "Axis 3 call forms: every parameter positionally and by keyword, defaults omitted / spelled (trim, ep=None, windowsize=None, size_factor, norm, fs=None, mode default 'butter', order default 4, "
+                "default transition bandwidth), order given with mode='sinc' and transition_bandwidth with Butterworth (flags combined). "
+                "Axis 4 units: signals, supports and ep in s / ms / us; smooth's std / windowsize in s / ms / us must give the result of the same instants in seconds. "
+                "Axis 5 placement: at the origin, all times negative, straddling 0 with a sample exactly at 0, 1e5 s away; interval ends exactly on samples or 0.2 step off. "
+                "Axis 6 degenerate: ep= empty / holding no sample, empty series (clean exception or empty result), one sample, all timestamps equal (explicit support), 1..5 intervals with 1..14 samples. "
+                "Axis 7 classes: Tsd / TsdFrame / TsdTensor; TsdFrame labels default / strings / unsorted integers / digit strings / floats, with and without column metadata. "
+                "Axis 8 histories: direct, restrict of a longer series (default or wide support), getitem (slice / arange / mask), arithmetic (x*1, x+0), a NumPy function (double negation), save + load_file, "
+                "columns picked out of a wider frame in non-monotone order (positions or .loc) / a frame column as Tsd / a doubly flipped tensor; non-contiguous, Fortran-ordered and list data; kernels that are "
+                "strided / negatively strided / Fortran views or a view of the signal's own data; every call repeated on the same live objects; one cutoff object shared by complementary calls")
     res.exhaustive = True
     part_exhaustive(res, nap, tier, random.Random(seed * 11 + 1))
     part_random(res, nap, tier, random.Random(seed * 11 + 2))
@@ -819,6 +1942,9 @@ def run(res, tier, seed):
     part_smooth_sinc(res, nap, tier, random.Random(seed * 11 + 8), variant="fft")
     part_butter(res, nap, tier, random.Random(seed * 11 + 5))
     part_empty_epoch(res, nap, tier, random.Random(seed * 11 + 6))
+    part_forms_convolve(res, nap, tier, seed)
+    part_forms_filters(res, nap, tier, seed)
+    part_forms_degenerate(res, nap, tier, seed)
 
 
 def search(res, seed):
@@ -864,6 +1990,26 @@ def replay(payload):
             return 1
         print("impl     returned %d samples on %d intervals" % (len(r), len(r.time_support)))
         return 0
+    cs = inp.get("case")
+    if isinstance(cs, dict) and cs.get("part") in ("forms_convolve", "forms_filters"):
+        # a widened case carries its complete description: run that one case again
+        r2 = C.Result()
+        if cs["part"] == "forms_convolve":
+            line = None
+            if not cs["special"]:
+                nc = len(cs["data"])
+                line = "frame\t%d\t%s\t%s\t%d %d\t%s\t%s" % (MODE[cs["trim"]], C.fmt_ints(cs["ts"]), C.fmt_iset(cs["ep"]), nc, len(cs["kernel"]),
+                                                             "\t".join(C.fmt_ints(d) for d in cs["data"]), "\t".join(C.fmt_ints(k) for k in cs["kernel"]))
+            check_fc(r2, nap, cs, C.run_model([line], driver="driver_c18")[0] if line else None)
+        else:
+            check_ff(r2, nap, cs)
+        print("case", {k: cs[k] for k in cs if k not in ("data", "data2", "ts", "extras")})
+        print("ts", cs["ts"], "data", cs["data"])
+        for w in r2.violations:
+            print("VIOLATION", w["key"], w["what"], "impl", str(w.get("impl"))[:400], "expected", str(w.get("expected"))[:400])
+        for w in r2.disagreements:
+            print("DISAGREEMENT", w["op"], str(w.get("impl"))[:300])
+        return 1 if (r2.violations or r2.disagreements) else 0
     print("replay input:", inp)
     print("what:", v.get("what"))
     return 1
